@@ -238,6 +238,13 @@ fn check_world(w: &World, step: usize, line: &str, before_anom: usize) {
         }
     }
     // ---- C10 / C12: every live handle still describes and reaches the same memory ---------------
+    // looking at an earlier handle must not panic either
+    let guarded = |hi: usize, what: &str, f: &dyn Fn()| {
+        if let OpOutcome::Panic(p) = catch(f) {
+            let (prop, cls): (&'static str, &str) = if what == "map" { ("C10", "C10/old-map-changed") } else { ("C11", "C11/stability") };
+            cx().violate(prop, cls, format!("{} cannot be read any more", what), format!("step {} {}: reading handle {} ({}) panicked: {}", step, line, hi, what, p));
+        }
+    };
     for (hi, h) in w.hs.iter().enumerate() {
         let Some(h) = h else { continue };
         let check_map = |m: &Map, list: &[usize], what: &str| {
@@ -248,6 +255,12 @@ fn check_world(w: &World, step: usize, line: &str, before_anom: usize) {
             if got != want || m.num_regions() != want.len() {
                 cx().violate(prop, cls_changed, format!("{} lists other regions", what), format!("step {} {}: handle {} ({}) lists {:x?}, the model says {:x?}", step, line, hi, what, got, want));
                 return;
+            }
+            if let Some(wl) = want.iter().map(|&(b, l)| b.wrapping_add(l).wrapping_sub(1)).max() {
+                if m.last_addr().0 != wl {
+                    cx().violate(prop, cls_changed, format!("{} summary differs from its regions", what), format!("step {} {}: handle {} ({}) reports last_addr() = {:#x} but its regions end at {:#x}", step, line, hi, what, m.last_addr().0, wl));
+                    return;
+                }
             }
             for w2 in got.windows(2) {
                 if w2[0].0 + w2[0].1 > w2[1].0 {
@@ -282,12 +295,12 @@ fn check_world(w: &World, step: usize, line: &str, before_anom: usize) {
                     cx().violate("C10", "C10/old-map-changed", "region handle changed".into(), format!("step {} {}: Arc region handle {} no longer describes region #{}", step, line, hi, id));
                 }
             }
-            H::Map(m, l) => check_map(m, l, "map"),
-            H::Snap(g, l) => check_map(g, l, "snapshot"),
-            H::Inner(a, l) => check_map(a, l, "into_inner handle"),
+            H::Map(m, l) => guarded(hi, "map", &|| check_map(m, l, "map")),
+            H::Snap(g, l) => guarded(hi, "snapshot", &|| check_map(g, l, "snapshot")),
+            H::Inner(a, l) => guarded(hi, "into_inner handle", &|| check_map(a, l, "into_inner handle")),
             H::Atomic(a, ai) => {
                 let g = in_mode(Mode::Setup, || a.memory());
-                check_map(&g, &w.atomics[*ai], "current map of the replaceable memory (a snapshot taken now)");
+                guarded(hi, "snapshot taken now", &|| check_map(&g, &w.atomics[*ai], "current map of the replaceable memory (a snapshot taken now)"));
             }
         }
     }
@@ -762,6 +775,38 @@ fn observe(m: &Map) -> (Vec<(u64, u64, u8)>, u64) {
         })
         .collect();
     let gen: u64 = m.read_obj(GuestAddress(GEN_ADDR)).unwrap_or(u64::MAX);
+    // the map must agree with itself: every region it lists is found and reached through the
+    // map-level lookup, and the summary queries describe the same list
+    let r = catch(|| -> Option<String> {
+        for &(b, l, _) in &list {
+            match m.find_region(GuestAddress(b)) {
+                Some(r) if r.start_addr().0 == b && r.len() == l => {}
+                other => return Some(format!("find_region({:#x}) gives {:?} although the map lists a region [{:#x},+{})", b, other.map(|r| (r.start_addr().0, r.len())), b, l)),
+            }
+            if m.find_region(GuestAddress(b + l - 1)).map(|r| r.start_addr().0) != Some(b) {
+                return Some(format!("the last byte of the listed region [{:#x},+{}) is not found", b, l));
+            }
+            let mut one = [0u8; 1];
+            if !matches!(m.read(&mut one, GuestAddress(b)), Ok(1)) {
+                return Some(format!("a read at the start of the listed region [{:#x},+{}) fails", b, l));
+            }
+        }
+        if m.num_regions() != list.len() {
+            return Some(format!("num_regions() = {} but {} regions are listed", m.num_regions(), list.len()));
+        }
+        if let Some(want) = list.iter().map(|&(b, l, _)| b + l - 1).max() {
+            if m.last_addr().0 != want {
+                return Some(format!("last_addr() = {:#x} but the listed regions end at {:#x}", m.last_addr().0, want));
+            }
+        }
+        None
+    });
+    match r {
+        OpOutcome::Ok(None) => {}
+        OpOutcome::Ok(Some(why)) => cx().violate("C11", "C11/wholeness", "a snapshot that does not agree with itself".into(), format!("snapshot listing {:x?}: {}", list.iter().map(|&(b, l, _)| (b, l)).collect::<Vec<_>>(), why)),
+        OpOutcome::Panic(p) => cx().violate("C11", "C11/panic", "panic while reading a snapshot".into(), format!("snapshot listing {:x?}: {}", list.iter().map(|&(b, l, _)| (b, l)).collect::<Vec<_>>(), p)),
+        OpOutcome::Sim(_) => {}
+    }
     (list, gen)
 }
 
